@@ -89,6 +89,11 @@ func main() {
 	repo := flag.String("repo", "/repo", "repository root")
 	out := flag.String("out", "", "output .v file (default stdout)")
 	flag.Parse()
+	if *out != "" {
+		if abs, err := filepath.Abs(*out); err == nil {
+			*out = abs
+		}
+	}
 	if err := os.Chdir(*repo); err != nil {
 		fmt.Fprintln(os.Stderr, err)
 		os.Exit(3)
@@ -1514,7 +1519,7 @@ func coqBool(b bool) string {
 func emit() string {
 	var b strings.Builder
 	b.WriteString("(* GENERATED by go/cmd/genskel from router/*.go and transport/*.go — do not edit. *)\n")
-	b.WriteString("From Coq Require Import String List NArith Bool.\nFrom Nexus Require Import Conc.SkelTypes.\nImport ListNotations.\nOpen Scope string_scope.\nOpen Scope N_scope.\n\n")
+	b.WriteString("From Coq Require Import String List NArith Bool.\nFrom Nexus Require Import Conc.SkelTypes.\nImport ListNotations.\nLocal Open Scope string_scope.\nLocal Open Scope N_scope.\n\n")
 	sort.SliceStable(order, func(i, j int) bool {
 		a, c := funcs[order[i]], funcs[order[j]]
 		if a.File != c.File {
